@@ -91,26 +91,24 @@ impl PartialDate {
 macro_rules! impl_with_fallback_method {
     ($method_name:ident, ( $(with_day: $day:ident)? ) $component_type:ty) => {
         pub(crate) fn $method_name(&self, fallback: &$component_type) -> TemporalResult<Self> {
-            let era = if let Some(era) = self.era {
-                Some(era)
-            } else {
-                let era = fallback.era();
-                era.map(|e| {
-                    TinyAsciiStr::<19>::try_from_utf8(e.as_bytes())
-                        .map_err(|e| TemporalError::general(format!("{e}")))
-                })
-                .transpose()?
-            };
-            let era_year = self
-                .era_year
-                .map_or_else(|| fallback.era_year(), |ey| Some(ey));
+            // NOTE: `year`, `era` and `eraYear` depend on each other (CalendarMergeFields): when any
+            // of them is supplied, none of them is taken from the receiver; otherwise the receiver's
+            // year identifies the year on its own.
+            let (year, era, era_year) =
+                if self.year.is_some() || self.era.is_some() || self.era_year.is_some() {
+                    (self.year, self.era, self.era_year)
+                } else {
+                    (Some(fallback.year()), None, None)
+                };
 
             let (month, month_code) = match (self.month, self.month_code) {
                 (Some(month), Some(mc)) => (Some(month), Some(mc)),
                 // NOTE: The month code is left to be derived when the fields are resolved, which is
                 // where an out of range month is constrained or rejected.
                 (Some(month), None) => (Some(month), None),
-                (None, Some(mc)) => (Some(mc.to_month_integer()).map(Into::into), Some(mc)),
+                // NOTE: Likewise a supplied month code replaces the receiver's month; its position
+                // depends on the year and is derived when the fields are resolved.
+                (None, Some(mc)) => (None, Some(mc)),
                 (None, None) => (
                     Some(fallback.month()).map(Into::into),
                     Some(fallback.month_code()),
@@ -118,7 +116,7 @@ macro_rules! impl_with_fallback_method {
             };
             #[allow(clippy::needless_update)] {
                 Ok(Self {
-                    year: Some(self.year.unwrap_or(fallback.year())),
+                    year,
                     month,
                     month_code,
                     $($day: Some(self.day.unwrap_or(fallback.day().into())),)?
